@@ -45,6 +45,27 @@ class Tm:
         return self.ms > o.ms
 
 
+def isint(tok):
+    """case token of an exact integer: 'I<n>' = the Python int n (any size), 'N<n>' = numpy.int64(n)"""
+    return tok[:1] in ("I", "N")
+
+
+def numval(tok):
+    """token of a number -> the python object given to tracklib: 'I<n>' a Python int, 'N<n>' a numpy.int64, anything
+    else (a dyadic rational, nan, +-inf) the Python float of that value"""
+    if tok[:1] == "I":
+        return int(tok[1:])
+    if tok[:1] == "N":
+        import numpy as np
+        return np.int64(int(tok[1:]))
+    return fval(tok)
+
+
+def dbl(n):
+    """token of the double nearest to the integer n (what float(n) is)"""
+    return ratstr(Fraction(float(n)))
+
+
 def fval(tok):
     """token of a tested value / threshold -> python float"""
     if tok == "nan":
@@ -60,15 +81,17 @@ def tokval(tok):
     """token of a feature cell / threshold -> the python value given to tracklib"""
     if istime(tok):
         return _OBSTIME[0](*tm_fields(int(tok[1:])))
-    return VALS[tok] if tok in VALS else fval(tok)
+    return VALS[tok] if tok in VALS else numval(tok)
 
 
 def valtok(v):
-    """python value read from a track -> exact protocol token (by value: True = 1 = 1.0)"""
+    """python value read from a track -> exact protocol token (by value: True = 1 = 1.0 = numpy.int64(1))"""
     if isinstance(v, bool):
         return "1" if v else "0"
     if hasattr(v, "year"):          # an ObsTime: its seven fields
         return "@%d.%d.%d.%d.%d.%d.%d" % (v.year, v.month, v.day, v.hour, v.min, v.sec, v.ms)
+    if isinstance(v, int) or getattr(getattr(v, "dtype", None), "kind", "") in ("i", "u"):
+        return str(int(v))          # an integer of any size, exactly (float() would round it beyond 2^53)
     f = float(v)
     if f != f:
         return "nan"
@@ -89,7 +112,7 @@ def exact(tok):
         return INF
     if tok == "-inf":
         return -INF
-    return Fraction(tok)
+    return Fraction(tok[1:] if isint(tok) else tok)
 
 
 def kind(tok):
@@ -98,6 +121,8 @@ def kind(tok):
 
 def mtok(tok):
     """case token -> protocol token (an instant is sent as its seven calendar fields)"""
+    if isint(tok):
+        return tok[1:]              # the model's numbers are exact rationals: an integer is itself, whatever its Python type
     return "@%d.%d.%d.%d.%d.%d.%d" % tm_fields(int(tok[1:])) if istime(tok) else tok
 
 
@@ -649,6 +674,104 @@ class P(Prop):
                             out.append(c1)
         return out
 
+    # ---- exact integers: Python ints of any size (epoch nanoseconds, counters, 64-bit identifiers), numpy.int64 cells
+    # Python compares int with int and int with float EXACTLY (the int is not converted), so a tested value and a
+    # threshold that differ by 1 beyond 2^53 are told apart; numpy.int64 against a Python int / numpy.int64 as well.
+    # (numpy.int64 against a float, numpy.float64 against a Python int: numpy converts the integer to a double first;
+    # those pairs are generated below 2^53 only, where the conversion is exact.)
+    BIG = [2 ** 53, -2 ** 53, 2 ** 60, 1_700_000_000_000_000_000, 2 ** 62, -2 ** 62 - 2 ** 20, 10 ** 16, 2 ** 54,
+           2 ** 53 - 6, 0, 1000, 2 ** 64, 3 * 10 ** 20]
+
+    @staticmethod
+    def ulp(n):
+        """spacing of the doubles around the integer n"""
+        return max(1, 2 ** (abs(n).bit_length() - 53))
+
+    def int_threshold(self, rng, base, u):
+        """an integer threshold around `base`: mostly NOT a double (so that float(threshold) != threshold)"""
+        r = rng.random()
+        if r < 0.6:
+            return base + rng.randrange(-3 * u, 3 * u + 1)
+        if r < 0.8:
+            return base + rng.choice([-1, 1, u // 2, -(u // 2), u // 2 + 1, u + 1, u - 1])
+        return base + rng.randrange(-3, 4) * u            # a double
+
+    def int_value(self, rng, T, u):
+        """an integer near the threshold T: equal, next to it, at / next to the double nearest to T, half a spacing away"""
+        R = int(float(T)) if abs(T) < 2 ** 1000 else T
+        return rng.choice([T, T, T - 1, T + 1, R, R - 1, R + 1, (T + R) // 2, T + u // 2, T - u // 2, T + u, T - u,
+                           R + u, R - u, T + rng.randrange(-3 * u, 3 * u + 1)])
+
+    def rand_segi(self, rng, base=None):
+        """segmentation() on features holding exact integers against integer / float thresholds around `base`"""
+        k = rng.randrange(1, 4)
+        n = rng.randrange(1, 9)
+        base = rng.choice(self.BIG) if base is None else base
+        u = self.ulp(base)
+        pn = rng.choice([0.0, 0.0, 0.15, 0.4])
+        small = abs(base) + 8 * u < 2 ** 53                # every integer in sight is a double: any pairing is exact
+        in64 = abs(base) + 8 * u < 2 ** 63
+        ths, cols = [], []
+        for j in range(k):
+            ck = rng.choice(["int", "int", "float", "mixed"] + (["npint"] if in64 else []))
+            T = self.int_threshold(rng, base, u)
+            if ck == "npint":
+                tk = rng.choice(["I", "I", "N"] + (["F"] if small else []))
+            else:
+                tk = rng.choice(["I", "I", "I", "F"] + (["N"] if (in64 and (small or ck == "int")) else []))
+            if tk == "F":
+                ths.append(dbl(T))                           # a float threshold (the double nearest to T)
+                T = int(Fraction(ths[-1]))
+            else:
+                ths.append(tk + str(T))
+            col = []
+            for i in range(n):
+                if rng.random() < pn:
+                    col.append("nan")
+                    continue
+                v = self.int_value(rng, T, u)
+                c_ = ck if ck != "mixed" else rng.choice(["int", "float"])
+                if tk == "N" and c_ == "float" and not small:
+                    c_ = "int"                               # a float against numpy.int64: numpy's conversion, not generated
+                col.append(dbl(v) if c_ == "float" else ("N" if c_ == "npint" else "I") + str(v))
+            cols.append(col)
+        r = rng.random()
+        if r < 0.1:
+            ths.append("I" + str(base + 1))                  # an extra threshold: never read
+        c = {"kind": "seg", "mode": rng.choice(["and", "or"]), "ths": ths, "rows": [[cols[j][i] for j in range(k)] for i in range(n)],
+             "split": rng.random() < 0.8}
+        if k == 1:
+            c["afs_form"] = rng.choice(["str", "list"])
+        c["ths_form"] = "scalar" if (len(ths) == 1 and rng.random() < 0.5) else "list"
+        if rng.random() < 0.25:
+            c["pre"] = {"type": "seg", "mode": rng.choice(["and", "or"]), "ths": ["I" + str(self.int_threshold(rng, base, u)) for _ in range(k)]}
+        elif rng.random() < 0.15:
+            c["outname"] = "f%d" % rng.randrange(k)          # the marker overwrites one of the tested features
+        return c
+
+    def int_grid(self, rng):
+        """for every base of BIG: 1..2 tested integer features x AND/OR x every combination of {below, equal, above, NaN}
+        by 1 and by half / one spacing of the doubles, against an integer threshold that is not a double (where there
+        are such) and against the double next to it"""
+        out = []
+        for base in self.BIG:
+            u = self.ulp(base)
+            for k in (1, 2):
+                Ts = [base + (u // 2 + 1 if u > 1 else 1) + 2 * j * u + j for j in range(k)]
+                for form in ("I", "F"):
+                    ths = [("I" + str(T)) if form == "I" else dbl(T) for T in Ts]
+                    Te = [int(exact(t)) for t in ths]
+                    rows = []
+                    for combo in itertools.product("beaN", repeat=k):
+                        d = rng.choice([1, 1, max(1, u // 2), u])
+                        rows.append(["nan" if ch == "N" else "I" + str(Te[i] + {"b": -d, "e": 0, "a": d}[ch]) for i, ch in enumerate(combo)])
+                    for mode in ("and", "or"):
+                        out.append({"kind": "seg", "mode": mode, "ths": ths, "rows": rows, "split": True})
+                        for r in rows:
+                            out.append({"kind": "seg", "mode": mode, "ths": ths, "rows": [r], "split": False,
+                                        "ths_form": "scalar" if (k == 1 and rng.random() < 0.5) else "list"})
+        return out
+
     def cases(self, rng, tier):
         out = []
         quick = tier == "quick"
@@ -718,6 +841,9 @@ class P(Prop):
             if nth >= k and rng.random() < 0.4:
                 out.append(self.with_names(rng, self.with_forms(rng, c)))
         out += self.kind_grid(rng)
+        out += self.int_grid(rng)
+        for _ in range(1500 if quick else 40000):
+            out.append(self.rand_segi(rng))
         for _ in range(1500 if quick else 40000):
             out.append(self.rand_segb(rng))
             if rng.random() < 0.25 and self.in_domain(out[-1]):
@@ -876,6 +1002,11 @@ class P(Prop):
             flat = [v for r in case["rows"] for v in r] + list(case["ths"])
             if "inf" in flat or "-inf" in flat:
                 t["infinite"] = "yes"
+            ints = [x for x in flat if isint(x)]
+            if ints:
+                big = any(abs(int(x[1:])) > 2 ** 53 for x in ints)
+                t["integers"] = ("beyond-2^53" if big else "small") + ("+numpy" if any(x[0] == "N" for x in ints) else "") + \
+                                ("+floats" if any(not isint(x) and x != "nan" for x in flat) else "")
         if k == "coll":
             t["tracks"] = len(case["tracks"])
             if case.get("names"):
@@ -1008,7 +1139,8 @@ class P(Prop):
             vals = [int(x) for x in toks] if nm == "tag" else [tokval(x) for x in toks]
             if env.get("numpy") and nm != "tag":      # cells computed with numpy: np.float64 / np.int64 scalars
                 import numpy as np
-                vals = [v if isinstance(v, bool) or hasattr(v, "year") else (np.int64(v) if isinstance(v, int) else np.float64(v)) for v in vals]
+                vals = [v if isinstance(v, bool) or hasattr(v, "year") or isint(x) else (np.int64(v) if isinstance(v, int) else np.float64(v))
+                        for v, x in zip(vals, toks)]        # ('I<n>' / 'N<n>' cells say themselves what they are)
             t.createAnalyticalFeature(nm, vals)
         return t
 
@@ -1076,10 +1208,10 @@ class P(Prop):
             t = self.make_track(case, len(rows))
             names = self.names(case)
             outname = case.get("outname", "out")
-            ths = [tokval(x) if istime(x) else fval(x) for x in case["ths"]]
+            ths = [tokval(x) if istime(x) else numval(x) for x in case["ths"]]
             pre = case.get("pre")
             if pre and pre["type"] == "seg":
-                self.S.segmentation(t, names, outname, [tokval(x) if istime(x) else fval(x) for x in pre["ths"]], self.mode_const(pre["mode"]))
+                self.S.segmentation(t, names, outname, [tokval(x) if istime(x) else numval(x) for x in pre["ths"]], self.mode_const(pre["mode"]))
                 if case.get("split"):
                     self.S.split(t, outname)        # a split() on the earlier marker, result dropped: it must leave nothing behind
             afs_form, ths_form = self.forms(case)
@@ -1099,7 +1231,7 @@ class P(Prop):
                 tracks.append(self.make_track({"kind": "seg", "rows": rows, "names": names}, len(rows), off))
                 off += len(rows)
             coll = self.TC(tracks)
-            ths = [fval(x) for x in case["ths"]]
+            ths = [numval(x) for x in case["ths"]]
             if case["mode"] == "default":
                 coll.segmentation(names, outname, ths)
             else:
@@ -1177,8 +1309,8 @@ class P(Prop):
         if k == "splitidx":
             return ["C11.splitidx %s %s %s" % (self.limit_tok(case), ",".join(str(i) for i in case["idx"]) or "_", self.pts_tok(case["pts"]))]
         if k == "coll":
-            return ["C11.collseg %s %s %s" % ("and" if case["mode"] == "default" else case["mode"], ",".join(case["ths"]) or "_",
-                                              "|".join(";".join(",".join(r) for r in rows) for rows in case["tracks"]))]
+            return ["C11.collseg %s %s %s" % ("and" if case["mode"] == "default" else case["mode"], ",".join(mtok(x) for x in case["ths"]) or "_",
+                                              "|".join(";".join(",".join(mtok(v) for v in r) for r in rows) for rows in case["tracks"]))]
         erows = self.eff_rows(case)
         rows = ";".join(",".join(mtok(v) for v in r) for r in erows)
         n = len(erows)
@@ -1359,7 +1491,7 @@ class P(Prop):
         if out["markers"] != want:
             bad = [i for i in range(len(want)) if i >= len(out["markers"]) or out["markers"][i] != want[i]][0]
             return ("marker %s, expected %s: observation %d with tested values %s (features %s) against thresholds %s in %s mode "
-                    "[@n = the instant n milliseconds after 1970-01-01]"
+                    "[@n = the instant n milliseconds after 1970-01-01; I<n> = the Python int n, N<n> = numpy.int64(n), other numbers are floats]"
                     % (out["markers"], want, bad, erows[bad], self.names(case), case["ths"], case["mode"].upper()))
         if case.get("split"):
             return oracle_split([c == "1" for c in want], out["pieces"])
@@ -1483,6 +1615,19 @@ class P(Prop):
             if self.in_domain(case) and case["rows"]:
                 for _ in range(3):
                     yield self.with_names(rng, dict(case, names=list(self.names(case))))
+            # the same comparison pattern on exact integers beyond 2^53: every (integer-valued) tested value and threshold
+            # moved by the same amount, as Python ints
+            toks = list(case["ths"]) + [v for r in case["rows"] for v in r] + list((case.get("pre") or {}).get("ths", []))
+            if (self.in_domain(case) and case["rows"] and self.numeric(case) and not case.get("names")
+                    and all(x == "nan" or (x not in ("inf", "-inf") and exact(x).denominator == 1) for x in toks)):
+                sh = lambda x, b: x if x == "nan" else "I" + str(int(exact(x)) + b)
+                for b in rng.sample(self.BIG, 3):
+                    c = {k_: v for k_, v in case.items() if k_ != "env"}
+                    c["ths"] = [sh(x, b) for x in case["ths"]]
+                    c["rows"] = [[sh(x, b) for x in r] for r in case["rows"]]
+                    if case.get("pre") and case["pre"]["type"] == "seg":
+                        c["pre"] = dict(case["pre"], ths=[sh(x, b) for x in case["pre"]["ths"]])
+                    yield c
         if k in ("split", "splitv", "splitg") and "src" not in case:
             # the same marker under a name that is not an identifier, next to the features the name seems to mention
             n = len(case["m"]) if k == "split" else len(case["vals"])
